@@ -70,7 +70,7 @@ const QUICK_ENTRIES: &[&str] = &[
     "ipc-file/prim", "ipc-file/str", "ipc-file/dict", "ipc-file/views", "ipc-file/list", "ipc-file/struct", "ipc-file/union", "ipc-file/lz4", "ipc-file/zstd", "ipc-file/schema-only",
     "flight/prim", "flight/dict", "flight/views",
     "parquet/plain-v1-uncomp", "parquet/dict-v1-snappy", "parquet/plain-v2-zstd", "parquet/delta-v2-uncomp", "parquet/bss-v1-lz4raw", "parquet/rle-bool-v2-gzip", "parquet/nested-list-v1-brotli", "parquet/struct-map-v2-snappy",
-    "parquet/pageidx-v1-uncomp", "parquet/views-arrowmeta-v1", "parquet/dictcols-runs-arrowmeta-v1", "parquet/empty-v1",
+    "parquet/pageidx-v1-uncomp", "parquet/views-arrowmeta-v1", "parquet/dictcols-runs-arrowmeta-v1", "parquet/views-delta-arrowmeta-v2", "parquet/empty-v1",
     "avro-ocf/simple-null", "avro-ocf/simple-deflate", "avro-ocf/simple-snappy", "avro-ocf/nested-null",
 ];
 fn in_quick(e: &Entry) -> bool {
